@@ -393,6 +393,7 @@ int disasm_arc(
             size = 6;
             immediate = READ_RAM32(address + 2);
             snprintf(temp, sizeof(temp), "0x%04x", immediate);
+            strcat(instruction, temp);
             break;
           case OP_U3:
             snprintf(temp, sizeof(temp), "%d", opcode16 & 0x7);
